@@ -205,7 +205,9 @@ inductive Op where
   | writeHeader (code : Nat)                      -- c.Response().WriteHeader(code)
   | write (b : Bytes)                             -- c.Response().Write(b)
   | flush                                         -- c.Response().Flush()
-  | stream (code : Nat) (chunks : List Bytes)     -- c.Stream(code, ct, reader yielding these chunks)
+  | stream (code : Nat) (chunks : List Bytes) (fails : Bool)
+      -- c.Stream(code, ct, reader yielding these chunks); `fails`: behind the last chunk the reader reports an
+      -- error other than io.EOF (alone, or together with its last bytes)
   | streamWT (code : Nat) (data : Bytes)          -- c.Stream(code, ct, strings.NewReader(data))
 deriving DecidableEq, Repr, Inhabited
 
@@ -217,7 +219,11 @@ inductive Ret where
 deriving DecidableEq, Repr, Inhabited
 
 /-- `io.Copy(response, reader)` for a reader that is not a `WriterTo`: one `Write` per chunk,
-    stop at the first count that is not the chunk's length -/
+    stop at the first count that is not the chunk's length.  How the reader hands the chunks out does
+    not matter to `io.Copy` (and so is not part of the model's program): bytes that come TOGETHER with
+    `io.EOF` or with an error are written before the error is looked at, a `Read` that returns
+    `(0, nil)` is simply repeated, a chunk larger than the 32 KiB copy buffer arrives in several
+    `Read`s and leaves in as many `Write`s (the counts of one chunk are added up by the harness). -/
 def copyChunks (s : St) : List Bytes → St × List Nat × Nat
   | [] => (s, [], 0)
   | c :: cs =>
@@ -232,10 +238,11 @@ def step (s : St) : Op → St × Ret
   | .writeHeader code => (respWriteHeader s code, .none)
   | .write b => let (s, n) := respWrite s b; (s, .wrote n)
   | .flush => (respFlush s, .none)
-  | .stream code chunks =>
+  | .stream code chunks fails =>
     let s := respWriteHeader s code
     let (s, ns, res) := copyChunks s (chunks.filter (fun c => !c.isEmpty))
-    (s, .streamed ns res)
+    -- a reader that fails: everything it handed out has been written, then `io.Copy` returns its error
+    (s, .streamed ns (if res == 0 && fails then 1 else res))
   | .streamWT code data =>
     let s := respWriteHeader s code
     -- strings.Reader.WriteTo: no Write for an empty reader; panics if the count is too large
@@ -645,7 +652,7 @@ def pOp : P Op := do
   | "H" => do let c ← nat; pure (.writeHeader c)
   | "W" => do let b ← bytes; pure (.write b)
   | "F" => pure .flush
-  | "S" => do let c ← nat; let cs ← list bytes; pure (.stream c cs)
+  | "S" => do let c ← nat; let cs ← list bytes; let f ← bool; pure (.stream c cs f)
   | "T" => do let c ← nat; let d ← bytes; pure (.streamWT c d)
   | _ => failure
 
@@ -738,7 +745,7 @@ def pLine : P Line := do
 /-- lines:
     `G plain levelNeg level minLengthNeg minLength nreq (reqx (0 | 1 at reqx))*` where
     `reqx = skip presetCE (0 | 1 failCode) acceptEncoding nops op*` with ops
-    `L n | H code | W bytes | F | S code nchunks bytes* | T code bytes`; the optional part is a
+    `L n | H code | W bytes | F | S code nchunks bytes* readerFails | T code bytes`; the optional part is a
     request the handler serves, nested, before its op number `at`
       → `nres (status ce cl? vary body nsnaps snap* nrets ret*)*`   (outer before nested)
     `D nreq (skip contentEncoding body (0 | 1 skip contentEncoding body))*`, body = `P bytes | Z nmembers bytes* defect`
